@@ -593,6 +593,7 @@ func TestVerif_C22(t *testing.T) {
 		"decodes per declared Content-Encoding to exactly the handler's body, coding accepted by the request, handler-declared coding untouched, Vary: Accept-Encoding when compressed; every Append*/Write* form round-trips through the reference decoder and the library's own AppendUn*/WriteUn*. " +
 		"B (schedules): closed systems of 2-4 callers of a fresh stackless.NewFunc wrapper, of Append*/Write* (all four codecs, three writer kinds) and of CompressHandler responses with queue capacity 1-2 and one worker, all interleavings up to the preemption bound: " +
 		"true => f ran exactly once with the caller's own ctx before the return; false => queue full; every codec call's output decodes to its own input or the call reports an error; every response is correct or visibly broken. " +
+		"X (cross-codec, one world per sequence): ordered pairs/triples of operations of different codecs {Append, Write to bytes.Buffer, Write to plain io.Writer, CompressHandlerBrotliLevel response buffered/stream-unsized/stream-writer} at levels that share one pool index, so that pooled real and stackless writers are handed from one codec's user to the next; every step must decode per its expected/declared coding to its own input. " +
 		"W: one directed execution at the shipped capacity 2048 with 2050 simultaneous callers. Non-trivial: executions with >=1 deviation, compressed responses, codec round trips")
 	r.Assume("mcrt shim semantics (litmus-tested); sync.Pool modelled as deterministic LIFO without scheduling points",
 		"queue capacity constant 2048 shrunk to 1-2 through mcrt.Param (backed by the full-scale directed witness); GOMAXPROCS pinned to 1: one stackless worker per wrapper",
@@ -618,6 +619,13 @@ func TestVerif_C22(t *testing.T) {
 				r.ToolError("bad artefact: %v", err)
 			}
 			c22RunSeqP(r, &cs)
+			r.Eval(1)
+		case "X":
+			var cs c22XCase
+			if err := json.Unmarshal(rp, &cs); err != nil {
+				r.ToolError("bad artefact: %v", err)
+			}
+			c22RunSeqX(r, &cs)
 			r.Eval(1)
 		case "W":
 			var cs c22WCase
@@ -655,12 +663,14 @@ func TestVerif_C22(t *testing.T) {
 	if !isParent && os.Getenv("C22_SKIP_SEQ") == "" {
 		hs, ps := c22SeqCases(r.Thorough())
 		ws := c22Witnesses()
+		xs := c22XCases(r.Thorough())
 		if k == 0 {
+			r.Set("seq_cross_codec_sequences", len(xs))
 			r.Set("seq_handler_cases", len(hs))
 			r.Set("seq_codec_cases", len(ps))
 			r.Set("fullscale_witnesses", len(ws))
 		}
-		total := len(hs) + len(ps) + len(ws)
+		total := len(hs) + len(ps) + len(ws) + len(xs)
 		ran := 0
 		seqStart := time.Now()
 		for i := 0; i < total; i++ {
@@ -681,6 +691,14 @@ func TestVerif_C22(t *testing.T) {
 				t0 := time.Now()
 				c22RunSeqH(r, cs)
 				r.AddMap("seq_wall_ms_by_kind", "handler/"+cs.BodyN, time.Since(t0).Milliseconds())
+				if i%997 == 0 {
+					r.Sample(cs)
+				}
+			case i >= len(ws)+len(hs)+len(ps):
+				cs := &xs[i-len(ws)-len(hs)-len(ps)]
+				t0 := time.Now()
+				c22RunSeqX(r, cs)
+				r.AddMap("seq_wall_ms_by_kind", "cross-codec", time.Since(t0).Milliseconds())
 				if i%997 == 0 {
 					r.Sample(cs)
 				}
